@@ -130,6 +130,6 @@ def subchecks(tier):
     n = 6 if q else 10
     return [Sub("schedules", "hyp", check, strategy=lambda: strategy(n), examples=32 if q else 240, shrink_budget=4,
                 sample_filter=sample_filter, time_budget_s=3000, required_classes=("order-inverted", "cpus=16", "hashseed-varied")),
-            Sub("many-queries", "hyp", check, strategy=many_strategy, examples=1 if q else 16, shrink_budget=0, shards=1 if q else 16,
+            Sub("many-queries", "hyp", check, strategy=many_strategy, examples=1 if q else 16, shrink_budget=0, skip_first=True, shards=1 if q else 16,
                 sample_filter=scale.short, time_budget_s=3000,
                 describe="257-300 query molecules (more than any batch size tied to --cpus), -c 1 vs -c 2 and -c 3..16, side files compared too")]
